@@ -22,8 +22,10 @@ def column_part(chk, quick, rnd):
     for c in cases:
         sf = {"scalar_form": rnd.choice(["plain", "func", "func2"])} if any(r["r"] == 8 for it in c["prog"]["items"] for r in it["refs"]) else {}
         jobs.append({"prog": c["prog"], "flow": c["flow"], "metadata": False, "ds": S, "mech": "scoped", "opts": dict(sf)})
-        # the same text with no default in force, in the same process, right after: nothing of the scope may linger
+        # the same text with no default in force, in the same process, right after: nothing of the scope may linger - outside any
+        # scope, and inside a later scope of the same thread that does not set the key
         jobs.append({"prog": c["prog"], "flow": c["flow"], "metadata": False, "mech": "none", "opts": dict(sf)})
+        jobs.append({"prog": c["prog"], "flow": c["flow"], "metadata": False, "mech": "scope_without_the_key", "opts": dict(sf)})
         if not any(r["r"] == 9 for it in c["prog"]["items"] for r in it["refs"]):
             # (a schema-qualified column qualifier is not something the core grammar writes: the fallback is exercised by the
             # two configuration mechanisms only)
@@ -33,11 +35,37 @@ def column_part(chk, quick, rnd):
     pool = mp.Pool(16, initializer=stmt_variants._init, initargs=({"SQLLINEAGE_DEFAULT_SCHEMA": S},))
     try:
         ejobs = [{"prog": c["prog"], "flow": c["flow"], "metadata": False, "ds": S, "mech": "env", "opts": {}} for c in cases]
+        # a scoped override to "" wins over the environment: no default in force inside it
+        ejobs += [{"prog": c["prog"], "flow": c["flow"], "metadata": False, "mech": "scope_sets_empty", "opts": {}} for c in cases[::3]]
         eres = pool.map(c02._run_chunk, c02.chunks(ejobs, 96))
     finally:
         pool.terminate()
     jobs += ejobs
     obs += [x for part in eres for x in part]
+    # the other direction, with metadata: programs whose tables are all in schema s (the provider knows some of them), written
+    # WITHOUT the schema while s is the default - through the environment (set before the library is imported) and the scoped override
+    gm = chk.tlc("Col", c02.cfg(chk, "colgenm", Emit=True, Schemas={"s"}, TAliases={"x"}, SAliases={"u"}, Kinds={"insert"}, MaxItems=2, WithMeta=True,
+                                invariants=["EmitCase"]),
+                 "generate: simulated programs over schema s with metadata", workers=1, coverage=False,
+                 simulate="num=%d" % (1500 if quick else 20000), depth=12, seed=chk.seed + 9, timeout=6000)
+    seen, mcases = set(), []
+    for c in gm.cases("CASE"):
+        k = str(c["prog"])
+        if k not in seen and c["prog"]["known"]:
+            seen.add(k)
+            mcases.append(c)
+    mcases = mcases[:300 if quick else 4000]
+    mj = [{"prog": c["prog"], "flow": c["flow"], "metadata": True, "ds": "s", "mech": "scoped", "keep_names": True, "opts": {"unqualify": "s"}} for c in mcases]
+    obs += c02.run_jobs(mj)
+    jobs += mj
+    pool = mp.Pool(16, initializer=stmt_variants._init, initargs=({"SQLLINEAGE_DEFAULT_SCHEMA": "s"},))
+    try:
+        mje = [{"prog": c["prog"], "flow": c["flow"], "metadata": True, "ds": "s", "mech": "env", "keep_names": True, "opts": {"unqualify": "s"}} for c in mcases]
+        mres = pool.map(c02._run_chunk, c02.chunks(mje, 96))
+    finally:
+        pool.terminate()
+    jobs += mje
+    obs += [x for part in mres for x in part]
     verdicts, keep = c02.decide(chk, jobs, obs, "colds")
     for (j, o), v in zip(keep, verdicts):
         chk.count(["col", j["prog"], j["mech"]], nontrivial=j["mech"] != "none")
